@@ -7,6 +7,11 @@
 //!   DIR/impl.jsonl   the implementation's canonicalised observation per operation
 //!   DIR/oracle.jsonl property-monitor failures found on the implementation alone (S)
 //!   DIR/stats.json   generator statistics (operation mix, outcome classes, sizes)
+pub mod abs;
+pub mod certgen;
+pub mod sim;
+pub mod replica;
+
 use std::{cell::RefCell, collections::BTreeMap, fs::File, io::{BufWriter, Write}, path::PathBuf};
 
 use rand::{rngs::StdRng, SeedableRng};
@@ -136,6 +141,11 @@ pub trait Prop {
     fn extra_stats(&self) -> Value {
         json!({})
     }
+    /// Adaptive mode: generation interleaved with execution (the generator looks at the implementation's state).
+    /// Returns true if it generated, executed and emitted everything itself.
+    fn adaptive(&mut self, _opts: &Opts, _out: &mut Out) -> bool {
+        false
+    }
 }
 
 pub fn drive(p: &mut dyn Prop, opts: &Opts) -> anyhow::Result<()> {
@@ -171,6 +181,9 @@ pub fn drive(p: &mut dyn Prop, opts: &Opts) -> anyhow::Result<()> {
         let obs = p.exec(op, &mut out);
         out.emit(op.clone(), obs);
     }
+    if opts.replay.is_none() {
+        p.adaptive(opts, &mut out);
+    }
     let extra = p.extra_stats();
     out.finish(extra)
 }
@@ -187,4 +200,18 @@ pub fn main_for(p: &mut dyn Prop) {
         eprintln!("harness error: {e:#}");
         std::process::exit(3);
     }
+}
+
+/// Async version of `catch`: a panic raised while polling `fut` becomes `Err(site)`.
+pub async fn catch_async<F: std::future::Future>(fut: F) -> Result<F::Output, String> {
+    let mut fut = Box::pin(fut);
+    LAST_PANIC.with(|p| *p.borrow_mut() = None);
+    std::future::poll_fn(move |cx| {
+        match std::panic::catch_unwind(std::panic::AssertUnwindSafe(|| fut.as_mut().poll(cx))) {
+            Ok(std::task::Poll::Ready(v)) => std::task::Poll::Ready(Ok(v)),
+            Ok(std::task::Poll::Pending) => std::task::Poll::Pending,
+            Err(_) => std::task::Poll::Ready(Err(LAST_PANIC.with(|p| p.borrow_mut().take()).unwrap_or_else(|| "?".into()))),
+        }
+    })
+    .await
 }
